@@ -31,7 +31,7 @@ CONTRACTS = {
     params={'msg': 'bool', 'timeLimit': 'optint', 'threads': 'optint', 'write': 'bool'},
     # what Solver.__init__ leaves behind: a well-formed model (reader, C10) and an admissible option set (Options_parser.parse, C16)
     requires=['sizes_ok(self.model)', 'pairs_ok(self.model)', 'self.model.num_lecturers >= 1', 'rows_sorted(self.model)',
-              'len(self.model.project_lists) == self.model.num_projects', 'len(self.model.lecturer_lists) == self.model.num_lecturers',
+              ('one-list-per-project', 'len(self.model.project_lists) == self.model.num_projects'), ('one-list-per-lecturer', 'len(self.model.lecturer_lists) == self.model.num_lecturers'),
               ('derived-lists-hold-model-pairs', LISTS_OK.format('project_lists') + ' and ' + LISTS_OK.format('lecturer_lists') + ' and ' + LISTS_OK.format('rank_lists')),
               ('well-formed-targets', 'forall(k, 0, self.model.num_lecturers, 0 <= self.model.lec_targets[k] and self.model.lec_targets[k] <= self.model.lec_upper_quotas[k])'),
               ('stability-needs-two-sided-lists', 'implies(' + OP + 'extra_constraints[Extra_constraints.STAB], two_sided(self.model))'),
